@@ -603,16 +603,26 @@ class ClientTls(Client):
         except ssl.SSLError as ex:
             if ex.errno in (ssl.SSL_ERROR_WANT_READ, ssl.SSL_ERROR_WANT_WRITE):
                 return False
-            elif ex.errno in (ssl.SSL_ERROR_EOF, ):
+            elif ex.errno in (ssl.SSL_ERROR_EOF, ):  # far side closed during handshake
                 self.shutclose()
-                raise   # should give up here nicely
+                self.cutoff = True
+                return False  # give up nicely
             else:
                 self.shutclose()
                 raise
         except OSError as ex:
             self.shutclose()
-            if ex.errno in (errno.ECONNABORTED, ):
-                raise  # should give up here nicely
+            if ex.errno in (errno.ECONNABORTED,
+                            errno.ECONNRESET,
+                            errno.ENETRESET,
+                            errno.ENETUNREACH,
+                            errno.EHOSTUNREACH,
+                            errno.ENETDOWN,
+                            errno.EHOSTDOWN,
+                            errno.ETIMEDOUT,
+                            errno.ECONNREFUSED):  # connection lost during handshake
+                self.cutoff = True
+                return False  # give up nicely
             raise
         except Exception as ex:
             self.shutclose()
